@@ -27,8 +27,12 @@ mod radix;
 mod c17;
 mod c02;
 mod c04;
+mod c17_sets;
+mod c09;
+mod c03;
+mod c18;
 
-pub(self) fn bare_program<'p>(arena: &'p Arena) -> Program<'p> {
+pub(in crate::program) fn bare_program<'p>(arena: &'p Arena) -> Program<'p> {
     let str_interner = StrInterner::new();
     let gc_ctx = GcContext::new();
     let exprs = Exprs {
@@ -61,7 +65,7 @@ pub(self) fn bare_program<'p>(arena: &'p Arena) -> Program<'p> {
     }
 }
 
-pub(self) fn bare_evaluator<'a, 'p>(program: &'a mut Program<'p>) -> Evaluator<'a, 'p> {
+pub(in crate::program) fn bare_evaluator<'a, 'p>(program: &'a mut Program<'p>) -> Evaluator<'a, 'p> {
     Evaluator {
         program,
         callbacks: None,
@@ -79,23 +83,49 @@ pub(self) fn bare_evaluator<'a, 'p>(program: &'a mut Program<'p>) -> Evaluator<'
 }
 
 /// An arbitrary *finite* double: the only numbers the language lets exist (C06).
-pub(self) fn any_finite() -> f64 {
+pub(in crate::program) fn any_finite() -> f64 {
     let x: f64 = kani::any();
     kani::assume(x.is_finite());
     x
 }
 
 /// A done thunk holding `v`, not registered in the collector.
-pub(self) fn done_thunk<'p>(v: ValueData<'p>) -> GcView<ThunkData<'p>> {
+pub(in crate::program) fn done_thunk<'p>(v: ValueData<'p>) -> GcView<ThunkData<'p>> {
     GcView::kani_unmanaged(ThunkData::new_done(v))
 }
 
 /// Reads the number on top of the value stack without popping it.
-pub(self) fn top_number(ev: &Evaluator<'_, '_>) -> Option<f64> {
+pub(in crate::program) fn top_number(ev: &Evaluator<'_, '_>) -> Option<f64> {
     match ev.value_stack.last() {
         Some(ValueData::Number(x)) => Some(*x),
         _ => None,
     }
+}
+
+impl<'p> Evaluator<'_, 'p> {
+    /// Stub for `Evaluator::execute_call` in harnesses whose key function is the identity function: the real
+    /// one dispatches on the function kind and thereby makes every builtin (YAML parser, hashes, manifesters,
+    /// ...) reachable, which no harness survives. The identity behaviour is the real code's identity arm.
+    pub(in crate::program) fn kstub_execute_call(&mut self, func: &FuncData<'p>, args: Box<[Gc<ThunkData<'p>>]>) {
+        assert!(matches!(func.kind, FuncKind::Identity { .. }), "harness key functions are the identity");
+        self.state_stack.push(State::DoThunk(args[0].view()));
+        core::mem::forget(args);
+    }
+}
+
+/// The identity function, as `Program::new` builds it.
+pub(in crate::program) fn identity_func<'p>(arena: &'p Arena, interner: &StrInterner<'p>) -> GcView<FuncData<'p>> {
+    let x = interner.intern(arena, "x");
+    let params: &'p [(InternedStr<'p>, Option<&'p ir::Expr<'p>>); 1] = Box::leak(Box::new([(x, None)]));
+    GcView::kani_unmanaged(FuncData::new_identity_func(None, params))
+}
+
+/// An array of `N` done thunks holding arbitrary finite numbers (unmanaged), plus the numbers.
+pub(in crate::program) fn number_array<'p, const N: usize>() -> (GcView<ArrayData<'p>>, [GcView<ThunkData<'p>>; N], [f64; N]) {
+    let vals: [f64; N] = core::array::from_fn(|_| any_finite());
+    let thunks: [GcView<ThunkData<'p>>; N] = core::array::from_fn(|i| done_thunk(ValueData::Number(vals[i])));
+    let items: Vec<Gc<ThunkData<'p>>> = thunks.iter().map(Gc::from).collect();
+    (GcView::kani_unmanaged(items.into_boxed_slice()), thunks, vals)
 }
 
 /// Standard stub set for evaluator harnesses.
@@ -125,4 +155,15 @@ macro_rules! eval_stubs {
         $item
     };
 }
-pub(self) use eval_stubs;
+pub(in crate::program) use eval_stubs;
+
+/// `eval_stubs!` plus the identity-only `execute_call`.
+macro_rules! eval_stubs_call {
+    ($item:item) => {
+        eval_stubs! {
+            #[kani::stub(crate::program::eval::Evaluator::execute_call, crate::program::eval::Evaluator::kstub_execute_call)]
+            $item
+        }
+    };
+}
+pub(in crate::program) use eval_stubs_call;
